@@ -23,8 +23,9 @@ VARIABLES l, bad,
           eofSeen,   \* streaming: the stream reported EOF to the handler
           unread,    \* the connection was closed because a streamed body was left unread
           behs,      \* handler behaviour per request: "ok" | "panic" (recovered by the recovery middleware)
-          level      \* tracer level of the case: "detailed" | "base" | "off"
-tvars == <<vars, l, bad, script, active, readDone, eofSeen, unread, behs, level>>
+          level,     \* tracer level of the case: "detailed" | "base" | "off"
+          resps      \* C04: the response program of each request's handler (empty: echo handler)
+tvars == <<vars, l, bad, script, active, readDone, eofSeen, unread, behs, level, resps>>
 
 Line == Trace[l]
 HasLine == l <= Len(Trace)
@@ -32,13 +33,14 @@ HasLine == l <= Len(Trace)
 \* the abstract requests of a case: offsets from Wire; a literal (raw) request is malformed; a body over the
 \* configured limit is "big"; when the peer closes at offset cut (> 0) the request containing it is partial and
 \* later ones never arrive
-Abstract(s, maxBody, cut) ==
+HClose(rs, i) == i \in DOMAIN rs /\ rs[i].close
+Abstract(s, rs, maxBody, cut) ==
     LET o == Offsets(s)
         n == IF cut = 0 THEN Len(s) ELSE Cardinality({i \in 1 .. Len(s) : o[i].start < cut})
     IN [i \in 1 .. n |-> [start |-> o[i].start, headEnd |-> o[i].headEnd,
                           end |-> IF cut > 0 /\ cut < o[i].end THEN cut ELSE o[i].end,
                           bodyLen |-> s[i].bodyLen, expect100 |-> s[i].expect100 /\ s[i].raw = "",
-                          close |-> s[i].close /\ s[i].raw = "", bad |-> s[i].raw # "",
+                          close |-> s[i].close /\ s[i].raw = "", hclose |-> HClose(rs, i), bad |-> s[i].raw # "",
                           big |-> (maxBody > 0 /\ s[i].bodyLen > maxBody),
                           partial |-> (cut > 0 /\ o[i].start < cut /\ cut < o[i].end)]]
 
@@ -46,12 +48,12 @@ NoCfg == [streaming |-> FALSE, idle |-> "inloop", trace |-> FALSE, wfail |-> 0]
 Blank == /\ reqs' = << >> /\ cfg' = NoCfg /\ sent' = 0 /\ eof' = FALSE /\ rd' = 0
          /\ phase' = "closed" /\ cur' = 1 /\ cons' = 0 /\ interim' = FALSE /\ hlog' = << >> /\ out' = << >>
          /\ topen' = FALSE /\ pairReq' = 0 /\ tlog' = << >> /\ script' = << >> /\ active' = FALSE
-         /\ readDone' = FALSE /\ eofSeen' = FALSE /\ unread' = FALSE /\ behs' = << >> /\ level' = "off"
+         /\ readDone' = FALSE /\ eofSeen' = FALSE /\ unread' = FALSE /\ behs' = << >> /\ level' = "off" /\ resps' = << >>
 
 TraceInit == /\ reqs = << >> /\ cfg = NoCfg /\ sent = 0 /\ eof = FALSE /\ rd = 0
              /\ phase = "closed" /\ cur = 1 /\ cons = 0 /\ interim = FALSE /\ hlog = << >> /\ out = << >>
              /\ topen = FALSE /\ pairReq = 0 /\ tlog = << >> /\ script = << >> /\ active = FALSE
-             /\ readDone = FALSE /\ eofSeen = FALSE /\ unread = FALSE /\ behs = << >> /\ level = "off"
+             /\ readDone = FALSE /\ eofSeen = FALSE /\ unread = FALSE /\ behs = << >> /\ level = "off" /\ resps = << >>
              /\ l = 1 /\ bad = << >>
 
 \* header fields: same number of fields, and for every name the same values in the same order (the relative
@@ -61,15 +63,15 @@ SameFields(a, b) == /\ Len(a) = Len(b)
                     /\ \A k \in DOMAIN b : ValuesOf(a, b[k].name) = ValuesOf(b, b[k].name)
 
 Consume == l' = l + 1 /\ UNCHANGED bad
-KeepAux == UNCHANGED <<script, active, readDone, eofSeen, unread, behs, level>>
+KeepAux == UNCHANGED <<script, active, readDone, eofSeen, unread, behs, level, resps>>
 Beh(i) == IF i \in DOMAIN behs THEN behs[i] ELSE "ok"
 
 TraceCase == /\ HasLine /\ Line.ev = "Case" /\ ~active
              /\ \A i \in DOMAIN Line.script : WellFormedReq(Line.script[i])
              /\ script' = Line.script /\ active' = TRUE /\ readDone' = FALSE /\ eofSeen' = FALSE /\ unread' = FALSE
-             /\ reqs' = Abstract(Line.script, Line.cfg.maxBody, Line.cfg.truncate)
+             /\ reqs' = Abstract(Line.script, Line.resps, Line.cfg.maxBody, Line.cfg.truncate)
              /\ cfg' = [streaming |-> Line.cfg.streaming, idle |-> Line.cfg.idle, trace |-> Line.cfg.trace # "off", wfail |-> Line.cfg.wfail]
-             /\ behs' = Line.behs /\ level' = Line.cfg.trace
+             /\ behs' = Line.behs /\ level' = Line.cfg.trace /\ resps' = Line.resps
              /\ sent' = 0 /\ eof' = FALSE /\ rd' = 0 /\ phase' = "idle" /\ cur' = 1 /\ cons' = 0 /\ interim' = FALSE
              /\ hlog' = << >> /\ out' = << >> /\ topen' = FALSE /\ pairReq' = 0 /\ tlog' = << >>
              /\ Consume
@@ -89,7 +91,7 @@ TraceHandle ==
        /\ Line.method = e.method /\ Line.target = e.target /\ Line.ver = e.ver
        /\ SameFields(Line.fields, e.fields)
     /\ readDone' = FALSE /\ eofSeen' = FALSE
-    /\ Consume /\ UNCHANGED <<script, active, unread, behs, level>>
+    /\ Consume /\ UNCHANGED <<script, active, unread, behs, level, resps>>
 
 \* runs observed by a read that returned k bytes starting at body offset c of request i
 OneRun(i, c, k) == IF k = 0 THEN << >> ELSE <<<<i, c, c + k>>>>
@@ -100,7 +102,7 @@ TraceReadBuffered ==
     /\ Line.k = BodyLen(cur) /\ Line.runs = OneRun(cur, 0, Line.k) /\ Line.err = ""
     /\ Line.rd = rd
     /\ readDone' = TRUE
-    /\ Consume /\ UNCHANGED <<vars, script, active, eofSeen, unread, behs, level>>
+    /\ Consume /\ UNCHANGED <<vars, script, active, eofSeen, unread, behs, level, resps>>
 
 \* streamed body: a read returns the next k bytes of the body (0 <= k <= p); EOF exactly at the end
 TraceReadStream ==
@@ -117,7 +119,7 @@ TraceReadStream ==
     /\ rd' = Line.rd
     /\ eofSeen' = (eofSeen \/ Line.eof)
     /\ Consume
-    /\ UNCHANGED <<reqs, cfg, sent, eof, phase, cur, interim, hlog, out, topen, pairReq, tlog, script, active, readDone, unread, behs, level>>
+    /\ UNCHANGED <<reqs, cfg, sent, eof, phase, cur, interim, hlog, out, topen, pairReq, tlog, script, active, readDone, unread, behs, level, resps>>
 
 TraceHandleEnd ==
     /\ active /\ HasLine /\ Line.ev = "HandleEnd"
@@ -127,15 +129,34 @@ TraceHandleEnd ==
     /\ (~cfg.streaming \/ eofSeen) => Line.trailers = Expected(script[cur], cur).trailers
     /\ Consume /\ KeepAux
 
-\* echo handler: 200, sequence number = request index; a handler that panicked under the recovery middleware
-\* yields a 500; the connection closes exactly when the request asked for it
+\* C04: what a response program must look like on the wire.  A program is
+\* [status, hdrs, body |-> [kind, n, n2, declared, ops], close]; body bytes of response i are pattern origin 32+i.
+RECURSIVE SumPos(_)
+SumPos(ops) == IF ops = << >> THEN 0 ELSE (IF Head(ops) > 0 THEN Head(ops) ELSE 0) + SumPos(Tail(ops))
+ProgBodyLen(b) == CASE b.kind = "none" -> 0
+                    [] b.kind = "append" -> b.n + b.n2
+                    [] b.kind = "chunkedWriter" -> SumPos(b.ops)
+                    [] OTHER -> b.n
+NoBody(method, status) == method = "HEAD" \/ (status >= 100 /\ status <= 199) \/ status = 204 \/ status = 304
+ProgResponseOK(p, i) ==
+    LET nb == NoBody(script[i].method, p.status) len == ProgBodyLen(p.body) IN
+    /\ Line.status = p.status
+    /\ Line.runs = (IF nb \/ len = 0 THEN << >> ELSE <<<<32 + i, 0, len>>>>)      \* exactly that body, or none
+    /\ \A k \in DOMAIN p.hdrs : ValuesOf(Line.hdrs, p.hdrs[k].name) = ValuesOf(p.hdrs, p.hdrs[k].name)
+    /\ Len(Line.hdrs) = Len(p.hdrs)
+    /\ (Line.cl >= 0 /\ ~nb) => Line.cl = Line.bodyLen                      \* Content-Length matches the bytes sent
+    /\ nb => Line.bodyLen = 0
+    /\ ((p.status >= 100 /\ p.status <= 199) \/ p.status = 204) => ~Line.chunked
+
+\* the handler's response: the echo handler answers 200 with the sequence number of the request; a handler that
+\* panicked under the recovery middleware yields a 500; a response program (C04) yields exactly its response
 TraceRespond ==
-    /\ active /\ HasLine /\ Line.ev = "Response" /\ Line.kind = "final" /\ phase = "write"
+    /\ active /\ HasLine /\ Line.ev = "Response" /\ phase = "write"
     /\ Respond(Line.close)
-    /\ Line.close = reqs[cur].close
-    /\ IF Beh(cur) = "panic" THEN Line.status = 500
-       ELSE Line.status = 200 /\ Line.seq = cur /\ Line.body = "ok-" \o ToDec(cur)
-    /\ (script[cur].ver = "1.0" /\ ~Line.close) => Line.keepalive
+    /\ IF cur \in DOMAIN resps THEN ProgResponseOK(resps[cur], cur)
+       ELSE /\ Line.kind = "final"
+            /\ IF Beh(cur) = "panic" THEN Line.status = 500
+               ELSE Line.status = 200 /\ Line.seq = cur /\ Line.body = "ok-" \o ToDec(cur)
     /\ Consume /\ KeepAux
 
 \* a malformed / oversized / cut-short request is answered with one 4xx carrying Connection: close (C03)
@@ -155,7 +176,7 @@ TraceClosed ==
        \/ IdleClose /\ UNCHANGED unread
        \/ AbortPartial /\ UNCHANGED unread
        \/ phase = "closed" /\ UNCHANGED <<vars, unread>>      \* after a rejection or a failed write
-    /\ Consume /\ UNCHANGED <<script, active, readDone, eofSeen, behs, level>>
+    /\ Consume /\ UNCHANGED <<script, active, readDone, eofSeen, behs, level, resps>>
 
 \* tracer (C19)
 TraceTStart == /\ active /\ HasLine /\ Line.ev = "TStart" /\ TStart /\ Consume /\ KeepAux
